@@ -133,6 +133,7 @@ structure Cfg where
   auth : Bool               -- AUTH is offered (PLAIN, LOGIN)
   maxSize : Option Nat      -- SIZE extension parameter
   immediateTls : Bool := false
+  custom : List Bytes := []   -- commands the handler object has a method for (upper-case names)
 deriving Repr, DecidableEq
 
 structure St where
@@ -149,6 +150,7 @@ structure St where
   envelope : Option (Bytes × List Bytes) := none
   sessEhlo : Option Bytes := none
   ncb : Nat := 0                          -- number of validator-visible callbacks made so far
+  custom : List Bytes := []
 deriving Repr, DecidableEq
 
 inductive Cb
@@ -321,6 +323,12 @@ def stepQuit (v : Verdicts) (s : St) (arg : Option Bytes) : St × List Event × 
     let (s1, evs, code) := callback v s .quit 221
     finish s1 evs code
 
+/-- `_command_custom` for a command the handler object has a method for: the handler gets a private
+    copy of the `500` reply, which it may change. -/
+def stepCustom (v : Verdicts) (s : St) (name : Bytes) (arg : Option Bytes) : St × List Event × Next :=
+  let (s1, evs, code) := callback v s (.custom name arg) 500
+  finish s1 evs code
+
 /-- One received command line (already parsed by `parseCommand`; `none` = no pattern matched). -/
 def step (v : Verdicts) (s : St) (cmd : Option (Bytes × Option Bytes)) : St × List Event × Next :=
   match cmd with
@@ -336,8 +344,9 @@ def step (v : Verdicts) (s : St) (cmd : Option (Bytes × Option Bytes)) : St × 
     else if cmdIs name "RSET" then stepRset v s arg
     else if cmdIs name "NOOP" then stepNoop v s
     else if cmdIs name "QUIT" then stepQuit v s arg
+    else if s.custom.contains name then stepCustom v s name arg
     else
-      -- `_command_custom`: the handler object of the edge has no such method: `500`
+      -- `_command_custom`: the handler object has no such method: `500`
       (s, [.reply 500], .continue_)
 
 /-- After the message data was read: HAVE_DATA, reply, forget the transaction. -/
@@ -355,7 +364,7 @@ def afterTls (s : St) : St × List Event :=
             envelope := none, sessEhlo := none }, [.cb .tlsHandshake])
 
 def initSt (cfg : Cfg) : St :=
-  { extTls := cfg.startTls, extAuth := cfg.auth, extSize := cfg.maxSize, encrypted := cfg.immediateTls }
+  { extTls := cfg.startTls, extAuth := cfg.auth, extSize := cfg.maxSize, encrypted := cfg.immediateTls, custom := cfg.custom }
 
 /-- `_command_BANNER_` -/
 def banner (v : Verdicts) (s : St) : St × List Event × Next :=
